@@ -125,13 +125,26 @@ func (g *DGen) value(t *ast.Type, hasLocDefault bool, depth int) GT {
 	if !g.inFrag && g.R.Intn(4) == 0 {
 		// a variable whose type is compatible with the position
 		vt := *t
-		if !vt.NonNull && g.R.Intn(2) == 0 {
+		forceDefault := false
+		switch {
+		case !vt.NonNull && g.R.Intn(2) == 0:
 			vt.NonNull = true
+		case vt.NonNull && hasLocDefault && g.R.Intn(2) == 0:
+			// a nullable variable is allowed in a non-null position that declares a default
+			vt.NonNull = false
+		case vt.NonNull && g.R.Intn(3) == 0:
+			// ... or when the variable itself has a non-null default
+			vt.NonNull = false
+			forceDefault = true
 		}
 		g.nvar++
 		name := fmt.Sprintf("v%d", g.nvar)
 		vd := GT{T: "vardef", K: []GT{leaf("var", name), gtType(&vt)}}
-		if g.R.Intn(3) == 0 {
+		if forceDefault {
+			nn := vt
+			nn.NonNull = true
+			vd.K = append(vd.K, GT{T: "default", K: []GT{g.literal(&nn, 1)}})
+		} else if g.R.Intn(3) == 0 {
 			vd.K = append(vd.K, GT{T: "default", K: []GT{g.literal(&vt, 1)}})
 		}
 		if g.R.Intn(5) == 0 {
